@@ -122,6 +122,14 @@ def auto_models(j, skip=()):
             vm = ('if (((unsigned char*)%s)[8] != %s) { __ipr_throw(IPR_EXC_std__bad_variant_access); }  return (%s)%s;' % (ps[0][1], mi.group(1), s['ret'], ps[0][1]))
         elif re.match(r'std::variant<.*>::emplace$', q) and mi:
             vm = '*(void**)%s = 0; ((unsigned char*)%s)[8] = %s; return (%s)%s;' % (ps[0][1], ps[0][1], mi.group(1), s['ret'], ps[0][1])
+        if q == 'std::get_if' and len(ps) == 1 and 'variant<' in s.get('type', ''):
+            ty = s.get('type', '')
+            norm = lambda t: re.sub(r'\s+', ' ', re.sub(r'\b(const|struct|class)\b', '', t)).replace(' *', '*').strip()
+            alts = [norm(a) for a in re.search(r'variant<([^<>]*)>', ty).group(1).split(',')]
+            want = re.match(r'\s*(?:std::)?add_pointer_t<([^<>]*?)>', ty)
+            idx = int(mi.group(1)) if mi else (alts.index(norm(want.group(1))) if want and norm(want.group(1)) in alts else None)
+            if idx is not None:
+                vm = 'if (%s == 0 || ((unsigned char*)%s)[8] != %d) return 0; return (%s)%s;' % (ps[0][1], ps[0][1], idx, s['ret'], ps[0][1])
         if vm:
             text += ('#ifndef IPR_EXC_std__bad_variant_access\n#define IPR_EXC_std__bad_variant_access 0x7ffffff2      /* even: NOT derived from std::logic_error */\n#endif\n'
                      '/* assumed: std::variant of pointer alternatives = (pointer value, index of the active alternative); a value-initialised variant holds alternative 0 = null */\n%s %s(%s) { %s }\n' % (s['ret'], n, s['params'], vm))
